@@ -30,7 +30,7 @@ theorem base_done : DoneLayer base := by
   intro r res r' h
   unfold base at h
   simp only at h
-  generalize ((r.emitSeen "fn" 0 r.seenLast).trigger "fn") = X at h
+  generalize ((r.emitSeen (if r.hedgeAttempt then "fnh" else "fn") 0 r.seenLast).trigger "fn") = X at h
   repeat' (split at h)
   all_goals first
     | (simp at h; done)
@@ -82,7 +82,7 @@ theorem hedge_done (pos n : Nat) (co : List Cond) (inner : Layer) (hi : DoneLaye
   | succ f ih =>
     intro k d b r res r' h
     simp only [hedgeLoop] at h
-    generalize (if (k == 0) = true then r else ({ r with attempts := r.attempts + 1, hedges := r.hedges + 1 }).emit "hp.onHedge" pos) = r0 at h
+    generalize (if (k == 0) = true then { r with hedgeAttempt := false } else ({ r with attempts := r.attempts + 1, hedges := r.hedges + 1, hedgeAttempt := true }).emit "hp.onHedge" pos) = r0 at h
     cases hin : inner r0 with
     | none =>
       simp only [hin] at h
